@@ -13,11 +13,13 @@ from .. import values as V
 from .common import Outcome, quiet, try_build
 from .sercommon import compare_graphs, cops
 from .c10 import digest
+from .. import aliasobs
 
 ID = "C13"
-COQ_IMPORT = "Corr.CNodes"
-COQ_CASE_TYPE = "g_case"
-COQ_CHECK = "g_check"
+COQ_IMPORT = "Corr.C13"
+COQ_CASE_TYPE = "c13_case"
+COQ_CHECK = "c13_check"
+EXPLAIN_UNWRAP = "c13_unwrap"
 THEOREMS = ["c13_round_trip", "c13_round_trip_eq", "c13_leaf_round_trip", "c13_round_trip_twice", "c13_keys", "c13_fields_are_documented", "c13_fields_in_dict"]
 PROOF_FILES = ["Proofs/DictProofs.v", "Proofs/SerialProofs.v", "Proofs/MirrorClosedProofs.v"]
 RULE = ("the C01 graph generator plus graphs with undefined (None) annotations (Conv input_shape None, Flatten(None), "
@@ -58,6 +60,13 @@ def gen(rng, tier):
         else:
             r = S.serial_graph(rng, depth=rng.choice([0, 1, 2]), max_nodes=rng.choice([2, 4, 6]), shared=rng.random() < 0.3)
         cases.append({"kind": "graph", "recipe": V.enc_recipe(r)})
+    # object-identity cases (Model/Alias.v): sharing pattern of g and g.to_dict(); two separate reads of one file
+    for i in range(N // 2):
+        if rng.random() < 0.25:
+            r = with_nones(rng)
+        else:
+            r = S.serial_graph(rng, depth=rng.choice([0, 1, 2]), max_nodes=rng.choice([2, 4, 6]), shared=rng.random() < 0.5)
+        cases.append({"kind": "alias" if i % 3 else "reads", "recipe": V.enc_recipe(r)})
     return cases
 
 
@@ -179,6 +188,59 @@ def poke(obj):
     return False
 
 
+def cross_shared(xa, xb, what):
+    """independent oracle: no mutable object of xa is, or views the memory of, a mutable object of xb"""
+    ma, mb = [], []
+    mutables(xa, ma, "a")
+    mutables(xb, mb, "b")
+    for pa, oa in ma:
+        for pb, ob in mb:
+            if shares(oa, ob):
+                return f"{what}: {pb} aliases {pa}"
+    return None
+
+
+def run_alias(g, nontriv, sig):
+    """the sharing pattern of (g, g.to_dict()) against the identity model"""
+    try:
+        with quiet():
+            d = g.to_dict()
+    except BaseException:  # noqa: BLE001
+        return Outcome(None, None, False, ("alias",) + (sig,))
+    term = aliasobs.alias_case(g, d)
+    fail = cross_shared(g, d, "to_dict() output shares mutable state with the graph")
+    if not fail:
+        # no two positions of the dictionary share a mutable object either (asdict copies per position)
+        md = []
+        mutables(d, md, "d")
+        for i in range(len(md)):
+            for j in range(i + 1, len(md)):
+                if shares(md[i][1], md[j][1]) and not fail:
+                    fail = f"two positions of the dictionary share mutable state: {md[i][0]} and {md[j][0]}"
+    return Outcome(term, fail, nontriv, ("alias",) + (sig,))
+
+
+def run_reads(g, nontriv, sig):
+    """two separate nir.read calls on one file: same internal sharing, nothing in common"""
+    import io
+    import nir
+    buf = io.BytesIO()
+    try:
+        with quiet():
+            nir.write(buf, g)
+    except BaseException:  # noqa: BLE001
+        return Outcome(None, None, False, ("reads",) + (sig,))
+    try:
+        with quiet():
+            a = nir.read(buf)
+            b = nir.read(buf)
+    except BaseException as e:  # noqa: BLE001
+        return Outcome(None, f"nir.read of a file nir.write produced raised {type(e).__name__}: {e}", nontriv, ("reads",) + (sig,))
+    term = aliasobs.reads_case(a, b)
+    fail = cross_shared(a, b, "two separate nir.read results share mutable state")
+    return Outcome(term, fail, nontriv, ("reads",) + (sig,))
+
+
 def run(c):
     import nir
     r = V.dec_recipe(c["recipe"])
@@ -188,12 +250,16 @@ def run(c):
         return Outcome(None, None, False, sig)
     g = b[1]
     nontriv = "metadata" in r or any(x["k"] == "NIRGraph" or any(v is None for v in x.get("args", {}).values()) for x in r["nodes"].values())
+    if c.get("kind") == "alias":
+        return run_alias(g, nontriv, sig)
+    if c.get("kind") == "reads":
+        return run_reads(g, nontriv, sig)
     try:
         with quiet():
             d = g.to_dict()
     except BaseException as e:  # noqa: BLE001
-        return Outcome(f"(CToDict {pyobs.nexpr(r)} (Err OtherError))", f"to_dict() raised {type(e).__name__}: {e}", nontriv, sig)
-    coq1 = f"(CToDict {pyobs.nexpr(r)} (Ok {F.pval(d)}))" if plain(d) is None else None
+        return Outcome(f"(C13G (CToDict {pyobs.nexpr(r)} (Err OtherError)))", f"to_dict() raised {type(e).__name__}: {e}", nontriv, sig)
+    coq1 = f"(C13G (CToDict {pyobs.nexpr(r)} (Ok {F.pval(d)})))" if plain(d) is None else None
     fail = plain(d) or keys_ok(d, g)
     g2 = None
     if not fail:
